@@ -273,3 +273,25 @@ MANIFEST_TEXT['C08'] = (
  "Partial proof. Machine-checked for all states: each removal of a reactive component is recorded exactly once under a fresh sequence number and nothing is recorded for a component that was not removed; one poll schedules, for every record a checker has not read, exactly the reactions of the reactors registered for that removal (C01 dispatch exactness), and advances every cursor so that a record is read once; a watched entity is sent exactly once when it dies, a poll schedules one reaction per registered despawn handle, consumes the entity's table entry (at most one firing per watched entity) and empties the channel. Not proved: reachability of the sequence-number invariant, the timing of polls relative to trees and frames, and the scheduled-reaction-to-single-run link; checked by differential runs of the poll profile (inserts, removals, re-inserts and despawns between polls; causes in reactors, in frame batches and by direct access; several reactors and despawn triggers per entity).",
  "Trusted: Coq kernel; model faithfulness (differential); Bevy RemovedComponents semantics as modelled. Partial: see above.",
  "Coq proof of the step-level behaviour (partial) + model/implementation correspondence", "DESIGN.md §5 C08")
+
+PROPS['C09'] = P(
+    ['log_is_append_only', 'queued_commands_telescope', 'runner_commands_run_inline', 'consequences_run_before_the_next_command',
+     'postponed_only_while_the_target_executes', 'postponed_commands_queue_in_order', 'replay_front_to_back',
+     'replayed_runs_own_postponed_commands_come_first', 'commands_for_other_targets_keep_their_order', 'nothing_left_postponed'],
+    ['recursion', 'mixed', 'poll'], 'order', determined=True,
+    assumes=['the interpreter is big-step (a command\'s execution includes everything it causes); the theorems add that effects are laid down in that order (append-only log) and describe the postponement exception; "the order of run lines = depth-first order of the command tree" over whole programs is the compared observation (order projection: every mark, run and end line), not a single theorem',
+             'the placement of polls (before and after every system command, end of frame) is structural in Machine.exec and compared'])
+MANIFEST_TEXT['C09'] = (
+ "Machine-checked for every program: the log is append-only under every interpreter step, so a queued command together with everything it transitively causes logs a block that precedes every effect of the next queued command (queued_commands_telescope); commands that enter the runner run in-line when applied and the commands produced by a trigger or registration are executed before the next queued command; a command is postponed only while its target is executing (runner invariant with ghost calling context), postponed commands queue in order, are replayed front to back right after the target's run and before control returns to what was queued after it, what the replayed runs postpone themselves goes first and commands for other targets keep their order; nothing is left postponed when the outermost command returns. Tied to /repo by differential runs of the recursion profile comparing every mark, run and end line in order, plus the m_runs monitor.",
+ "Trusted: Coq kernel; model faithfulness (differential); Bevy command-queue semantics as modelled. The single whole-program statement 'run order = depth-first order of the command tree' is the compared observation rather than a theorem; poll placement is structural.",
+ "Coq proof (append-only log as a closed invariant, structural theorems of the big-step interpreter, runner invariant) + model/implementation correspondence on the order of all marks and runs + monitor", "DESIGN.md §5 C09")
+PROPS['C12'] = P(
+    ['each_delivery_carries_its_own_data', 'own_data_means_the_entries_of_one_command', 'deliveries_are_applied_in_the_order_sent_partial',
+     'tickets_are_drawn_in_application_order_partial', 'busy_target_deliveries_queue_in_order_partial', 'replay_is_front_to_back_partial',
+     'deliveries_to_other_targets_keep_their_order_partial'],
+    ['recursion', 'mixed'], 'readers', determined=False,
+    assumes=['PARTIAL: "each with its own data" is proved in full (C03); the order is proved per mechanism (application order, ticket order, FIFO postponement, front-to-back replay that keeps the order of what it skips), not as the single statement "the k-th delivery from one run to one target is the k-th of them to start" over whole programs with nested replays; that is compared (readers / order projections, bursts of 2-4 mixed deliveries to one busy or idle target) and checked by the m_order monitor'])
+MANIFEST_TEXT['C12'] = (
+ "Partial proof. Machine-checked for every program: every delivery carries its own data — a run sees exactly the entries parked by the command that caused it, for any number and mix of deliveries pending for one system (C03: proved-unreachable assertion + exact claims under unique tickets). For the order: commands of one run are applied in the order queued and an in-line delivery completes with its whole subtree before the next is applied; tickets are drawn in application order; deliveries to a busy target are appended to the back of the buffer; the replay after the target's run is front to back and keeps the relative order of what it does not run. The whole-program ordering statement with nested replays is not a theorem; it is checked by differential runs (recursion profile: bursts of 2-4 deliveries of mixed kinds to one busy or idle target, alone or interleaved with other targets) and by the m_order monitor.",
+ "Trusted: Coq kernel; model faithfulness (differential); Bevy semantics as modelled. Partial: order over whole programs with nested replays is correspondence + monitor.",
+ "Coq proof (own-data in full via the ticket invariant; order per mechanism, partial) + model/implementation correspondence + monitor", "DESIGN.md §5 C12")
